@@ -5,7 +5,7 @@ import numpy as np
 
 from symx.core import land, lor, lnot, implies, iff
 from ._tree import build, go_symbolic, count_true, digest, val, instrument
-from .tstep import _tree_invariant, _counts, _c02_end_to_end, _best
+from .tstep import _tree_invariant, _counts, _c02_end_to_end, _best, _c12_histories
 
 
 def make_gsc(kind, w):
@@ -93,6 +93,8 @@ def h_run(P, kinds, props, steps=3, mech="nbc", hibernation=True, L=2, generatio
                      and all(d._sprout_seed is None or bool(np.all(d._sprout_seed.genome >= lo) and np.all(d._sprout_seed.genome <= hi)) for _, d in tree.all_demes))
         if "C02" in props:
             _c02_end_to_end(P, w, tree)
+        if "C12" in props:
+            _c12_histories(P, w, tree, maximize)
         if "C20" in props:
             _purity(P, w, tree)
         if "C09" in props:
